@@ -55,15 +55,21 @@ def make_args_unique(a: ast.Lambda) -> ast.Lambda:
                 mapping = [(a.arg, arg_name()) for a in node.args.args]
                 self._seen_lambda = True
 
+            # Default values are evaluated in the scope enclosing the lambda: rename inside them
+            # before this lambda's own parameters come into scope.
+            new_defaults = [self.visit(d) for d in node.args.defaults]
+
             for old, new in mapping:
                 self._arg_stack.append((old, new))
 
-            r = self.generic_visit(node)
-            assert isinstance(r, ast.Lambda)
+            new_body = self.visit(node.body)
 
-            r.args.args = [ast.arg(arg=new, annotation=None) for old, new in mapping]
             for arg in node.args.args:
                 self._arg_stack.pop()
+
+            r = ast.Lambda(args=copy.copy(node.args), body=new_body)
+            r.args.args = [ast.arg(arg=new, annotation=None) for old, new in mapping]
+            r.args.defaults = new_defaults
 
             return r
 
